@@ -903,10 +903,19 @@ class Logic:
                 e.func.id == 'bool' and len(e.args) == 1:
             return self.atom(e.args[0], fr, pol)
         if _is_len(e):                      # truthiness of len(L)
+            q = self._empty_comp(e.args[0], fr, not pol)
+            if q is not None:
+                return q
             return Lit('empty(%s)' % c.c(e.args[0], fr), not pol)
         if isinstance(e, ast.Compare) and len(e.ops) == 1:
             op = _CMP[type(e.ops[0])]
             l, r = e.left, e.comparators[0]
+            # a local holding len(...) stands for it
+            if fr is not None:
+                if isinstance(l, ast.Name) and l.id in fr.aliases and _is_len(fr.aliases[l.id]):
+                    l = fr.aliases[l.id]
+                if isinstance(r, ast.Name) and r.id in fr.aliases and _is_len(fr.aliases[r.id]):
+                    r = fr.aliases[r.id]
             # emptiness idioms
             for a, b, o in ((l, r, op), (r, l, _flip(op))):
                 if _is_len(a) and _num(b) is not None:
@@ -914,9 +923,9 @@ class Logic:
                     loc = c.c(a.args[0], fr)
                     # len(L) o n  -> empty / not empty where decidable
                     if (o, n) in (('==', 0), ('<', 1), ('<=', 0)):
-                        return Lit('empty(%s)' % loc, pol)
+                        return self._empty_comp(a.args[0], fr, pol) or Lit('empty(%s)' % loc, pol)
                     if (o, n) in (('!=', 0), ('>', 0), ('>=', 1)):
-                        return Lit('empty(%s)' % loc, not pol)
+                        return self._empty_comp(a.args[0], fr, not pol) or Lit('empty(%s)' % loc, not pol)
             if isinstance(r, (ast.List, ast.Tuple, ast.Dict)) and not getattr(
                     r, 'elts', getattr(r, 'keys', None)) and op in ('==', '!='):
                 return Lit('empty(%s)' % c.c(l, fr), pol if op == '==' else not pol)
@@ -939,9 +948,42 @@ class Logic:
             return Lit('%s %s %s' % (ls, op, rs), pol)
         if isinstance(e, ast.Constant):
             return Lit('const:%r' % bool(e.value), pol)
+        q = self._empty_comp(e, fr, not pol)
+        if q is not None:
+            return q
         s = c.c(e, fr)
         # truthiness of a container location counts as non-emptiness
         return Lit('truthy(%s)' % s, pol)
+
+    def _empty_comp(self, e, fr, pol):
+        """emptiness of a filtered comprehension [x for x in I if P] (directly, or through the
+        one local it is assigned to):  empty  <=>  forall x in I: not P"""
+        if fr is None:
+            return None
+        comp = e
+        if isinstance(e, ast.Name) and e.id not in fr.binding:
+            from .paths import assigned_names
+            defs = assigned_names(fr.func).get(e.id, [])
+            if len(defs) == 1 and isinstance(defs[0], ast.Assign) and len(defs[0].targets) == 1 and \
+                    isinstance(defs[0].targets[0], ast.Name):
+                comp = defs[0].value
+        if not (isinstance(comp, (ast.ListComp, ast.GeneratorExp)) and len(comp.generators) == 1
+                and comp.generators[0].ifs):
+            return None
+        from .skel import quantified
+        g = comp.generators[0]
+        vs = [self.canon.c(x, fr) for x in ast.walk(g.target) if isinstance(x, ast.Name)]
+        it = self.canon.c(g.iter, fr)
+        cond = g.ifs[0] if len(g.ifs) == 1 else ast.BoolOp(op=ast.And(), values=list(g.ifs))
+        if pol:      # empty: every element fails the filter
+            alts = self.dnf(cond, fr, False, 1)
+            if len(alts) == 1 and len(alts[0]) == 1:
+                return quantified('forall', vs, it, alts[0][0])
+            return None
+        alts = self.dnf(cond, fr, True, 1)
+        if len(alts) == 1 and len(alts[0]) == 1:
+            return quantified('exists', vs, it, alts[0][0])
+        return None
 
     def dnf(self, e, fr, pol=True, depth=2):
         """List of conjunctions (lists of Lit) equivalent to (e is pol),
